@@ -136,7 +136,8 @@ def predicates(chk, F):
     # *_LSB constants
     consts = {}
     for k, f in F.fns.items():
-        if f['kind'] == 'Const' and k.startswith('controller_number_mod::controller_numbers::'):
+        # the public `controller_numbers` module, wherever the file that declares it lives
+        if f['kind'] == 'Const' and len(k.split('::')) >= 2 and k.split('::')[-2] == 'controller_numbers':
             I, outs, args = run_fn(F, k)
             s = H.scalar_of(outs[0].value) if len(outs) == 1 and outs[0].kind == 'return' else None
             if s is not None and s.term[0] == 'c':
